@@ -222,7 +222,7 @@ pub fn failing(rng: &mut Rng, base: &Reply, request_hint: usize, small_caps: boo
         kind,
         schedule_independent: indep,
     };
-    match rng.below(14) {
+    match rng.below(15) {
         0 => {
             let errno = *rng.pick(&[libc::ENOENT, libc::EACCES, libc::ENOEXEC, libc::EAGAIN, libc::ENOMEM, libc::EMFILE]);
             Behaviour { gen: Generator { spawn_errno: Some(errno), label: format!("spawn-errno-{errno}"), ..Default::default() }, kind: "spawn-error", schedule_independent: true }
@@ -341,6 +341,58 @@ pub fn failing(rng: &mut Rng, base: &Reply, request_hint: usize, small_caps: boo
             // reads only part of the request, replies, exits 0: by history OK or FAILED depending on EPIPE
             let s = vec![ScriptOp::ReadExact { n: 1 + rng.usize_below(request_hint.max(2)) }, w(1, &[0, 0]), ScriptOp::Exit { code: 0 }];
             mk(s, "partial-read-then-reply".into(), "exit-without-reading", false)
+        }
+        13 => {
+            // a valid reply that went through a noisy channel: 1..2 byte-level corruptions anywhere except inside a
+            // path string (so that whatever still decodes keeps writing to the names of the pool)
+            let mut bytes = good.clone();
+            let mut protected: Vec<(usize, usize)> = Vec::new();
+            {
+                let mut r = refcodec::dynval::Reader::new(&good);
+                if let Ok(n) = r.size() {
+                    for _ in 0..n {
+                        let start = r.pos;
+                        if r.string().is_err() {
+                            break;
+                        }
+                        protected.push((start, r.pos));
+                        if r.string().is_err() || r.skip_tagged().is_err() {
+                            break;
+                        }
+                    }
+                }
+            }
+            let free: Vec<usize> = (0..bytes.len()).filter(|i| !protected.iter().any(|(a, b)| i >= a && i < b)).collect();
+            let mut what = Vec::new();
+            if !free.is_empty() {
+                for _ in 0..1 + rng.usize_below(2) {
+                    let at = *rng.pick(&free);
+                    match rng.below(3) {
+                        0 => {
+                            let bit = rng.below(8);
+                            bytes[at] ^= 1 << bit;
+                            what.push(format!("flip@{at}.{bit}"));
+                        }
+                        1 => {
+                            let b = *rng.pick(&[0u8, 1, 2, 0xfc, 0xfd, 0xfe, 0xff, 0x80, 0x7f]);
+                            bytes[at] = b;
+                            what.push(format!("set@{at}={b:#x}"));
+                        }
+                        _ => {
+                            // a length prefix inflated to a huge announced size
+                            let mut w = refcodec::dynval::Writer::new();
+                            w.var_unsigned(*rng.pick(&[1u128 << 28, (1 << 62) - 1, 1 << 40]), None);
+                            bytes.splice(at..at + 1, w.out);
+                            what.push(format!("announce@{at}"));
+                            break;
+                        }
+                    }
+                }
+            }
+            let mut s = vec![read_op(rng)];
+            s.extend(chunked(rng, 1, &bytes));
+            s.push(ScriptOp::Exit { code: 0 });
+            mk(s, format!("corrupted-reply {}", what.join(" ")), "corrupted", true)
         }
         12 => {
             // closes stdin early (perhaps after reading a little), stays alive and then writes more than a pipe holds
